@@ -39,26 +39,31 @@ Definition out_chunks (b : behav) (tag name : string) : list string :=
   if b_bare b then b_chunks b else prefix_first (tag ++ name) (b_chunks b).
 
 (* [tag] = the option tag the tool acts on ("" for a tool that ignores its options) *)
-Definition tbl_inv (tbl : list (string * behav)) (tag : string) (name args : string) : tres :=
+(* [q]: the tool is built with utils' default output marshalling: the output of an invocation,
+   every chunk of a streamed execution, is rendered as a JSON string (the harness's outputs need
+   no escaping) *)
+Definition jq (q : bool) (s : string) : string := if q then """" ++ s ++ """" else s.
+
+Definition tbl_inv (tbl : list (string * behav)) (q : bool) (tag : string) (name args : string) : tres :=
   match alist_get args tbl with
   | None => TErr 7
   | Some b =>
       if b_panic b then TPanic
       else if N.eqb (b_fail b) 0 then
-             TOk (if b_bare b then concat_strings (b_chunks b)
-                  else tag ++ name ++ ":" ++ concat_strings (b_chunks b))
+             TOk (jq q (if b_bare b then concat_strings (b_chunks b)
+                        else tag ++ name ++ ":" ++ concat_strings (b_chunks b)))
            else TErr (b_fail b)
   end.
 
-Definition tbl_str (tbl : list (string * behav)) (tag : string) (name args : string) : sres :=
+Definition tbl_str (tbl : list (string * behav)) (q : bool) (tag : string) (name args : string) : sres :=
   match alist_get args tbl with
   | None => SErr 7
   | Some b =>
       if b_panic b then SPanic
-      else if N.eqb (b_fail b) 0 then SOk (out_chunks b tag name) None
+      else if N.eqb (b_fail b) 0 then SOk (map (jq q) (out_chunks b tag name)) None
            else match b_failat b with
                 | None => SErr (b_fail b)
-                | Some k => SOk (firstn k (out_chunks b tag name)) (Some (b_fail b))
+                | Some k => SOk (firstn k (map (jq q) (out_chunks b tag name))) (Some (b_fail b))
                 end
   end.
 
@@ -75,8 +80,9 @@ Inductive omsg : Type := M (content id : string) | NoMsg.          (* a tool mes
 Inductive ochunk : Type := Ch (pos : nat) (content id : string).     (* a sparse chunk: position set, message *)
 Inductive xcall : Type := X (name args id tag : string).            (* one tool execution; id as seen in its ctx; option tag it was handed *)
 (* a tool given to NewToolNode / WithToolList: k = None: it implements neither run interface;
-   oty: the implementation-specific option type it reads (0 = none); info_ok: its Info call succeeds *)
-Inductive tdef : Type := T (name : string) (k : option tkind) (oty : N) (info_ok : bool).
+   oty: the implementation-specific option type it reads (0 = none); q: its outputs are rendered
+   as JSON strings; info_ok: its Info call succeeds *)
+Inductive tdef : Type := T (name : string) (k : option tkind) (oty : N) (q : bool) (info_ok : bool).
 (* a tool.Option: its implementation-specific type and the tag it carries *)
 Inductive ctag : Type := TG (ty : N) (tag : string).
 (* a ToolsNodeOption *)
@@ -142,14 +148,14 @@ Definition tag_seen (oty : N) (os : list (topt string)) : string := concat_strin
    by the argument string, on the tag it reads from the tool options it is handed *)
 Definition decl_of (tbl : list (string * behav)) (t : tdef) : tooldecl (list (topt string)) :=
   match t with
-  | T n k oty ok =>
-      mkTD ok n k (mkTI (fun os => tbl_inv tbl (tag_seen oty os) n)
-                        (fun os => tbl_str tbl (tag_seen oty os) n))
+  | T n k oty q ok =>
+      mkTD ok n k (mkTI (fun os => tbl_inv tbl q (tag_seen oty os) n)
+                        (fun os => tbl_str tbl q (tag_seen oty os) n))
   end.
 Definition decls_of (tbl : list (string * behav)) (l : list tdef) : list (tooldecl (list (topt string))) := map (decl_of tbl) l.
 (* name -> (kind, option type) in the list in force, resolved as convTools' index does *)
 Definition def_lookup (l : list tdef) (name : string) : option (option tkind * N) :=
-  index_lookup (map (fun t => match t with T n k s _ => (n, (k, s)) end) l) name.
+  index_lookup (map (fun t => match t with T n k s _ _ => (n, (k, s)) end) l) name.
 Definition topts_of (tags : list ctag) : list (topt string) := map (fun t => match t with TG ty s => (ty, s) end) tags.
 (* the call's options as the model's, over tool descriptions and over the model's tool declarations *)
 Definition nopt_tdefs (o : cnopt) : nodeopt string tdef :=
